@@ -141,3 +141,53 @@ Proof.
   destruct (Nat.min (cap - b_end b2) (length c)) as [|k'] eqn:Ek; [cbn; discriminate|].
   rewrite uadd_ok by (ucap; lia). cbn; discriminate.
 Qed.
+
+(* ---- what read_some does to the indices before it reads (reset when empty, compact when full) ---- *)
+Definition prep (b : buf) : buf :=
+  let b1 := if buf_is_empty b then {| b_begin := 0; b_pend := b_pend b |} else b in
+  if Nat.eqb (b_end b1) cap then {| b_begin := 0; b_pend := b_pend b1 |} else b1.
+
+Lemma prep_pend b : b_pend (prep b) = b_pend b.
+Proof. unfold prep. destruct (buf_is_empty b); destruct (Nat.eqb _ _); reflexivity. Qed.
+
+Lemma prep_idem b : prep (prep b) = prep b.
+Proof.
+  unfold prep, buf_is_empty. destruct b as [bb pp]. cbn [b_pend b_begin]. destruct pp as [|x pp].
+  - unfold b_end; cbn [b_begin b_pend length]. destruct (Nat.eqb_spec (0 + 0) cap); cbn [b_pend b_begin];
+      unfold b_end; cbn [b_begin b_pend length]; destruct (Nat.eqb_spec (0 + 0) cap); try reflexivity; contradiction.
+  - unfold b_end; cbn [b_begin b_pend]. destruct (Nat.eqb_spec (bb + length (x :: pp)) cap) as [E|E]; cbn [b_pend b_begin].
+    + destruct (Nat.eqb_spec (0 + length (x :: pp)) cap); reflexivity.
+    + destruct (Nat.eqb_spec (bb + length (x :: pp)) cap); [contradiction|reflexivity].
+Qed.
+
+(* read_some only looks at the prepared buffer *)
+Definition rs_body (b2 : buf) (c : list N) : buf * rs_result :=
+  if Nat.ltb cap (b_end b2) then (b2, RsPanic)
+  else
+    let free := cap - b_end b2 in
+    let k := Nat.min free (length c) in
+    match k with
+    | O => (b2, RsEof)
+    | _ => match uadd (b_end b2) k with
+           | None => (b2, RsPanic)
+           | Some _ => ({| b_begin := b_begin b2; b_pend := b_pend b2 ++ firstn k c |}, RsOk k (skipn k c))
+           end
+    end.
+Lemma read_some_body x c : read_some x c = rs_body (prep x) c.
+Proof. reflexivity. Qed.
+Lemma read_some_prep b c : read_some (prep b) c = read_some b c.
+Proof. rewrite !read_some_body, prep_idem. reflexivity. Qed.
+
+Lemma prep_wf b : wf b -> wf (prep b).
+Proof.
+  intros Hwf. unfold prep, buf_is_empty. ucap. destruct (b_pend b) eqn:E; cbn [b_pend b_begin length].
+  - destruct (Nat.eqb _ _); cbn [b_pend b_begin length]; lia.
+  - rewrite E. destruct (Nat.eqb_spec (b_begin b + length (n :: l)) 260); cbn [b_pend b_begin]; rewrite ?E; cbn [length] in *; lia.
+Qed.
+
+(* a read that meets the end of the script / a 0-byte read leaves exactly the prepared buffer *)
+Lemma read_some_nil_prep b : wf b -> read_some b [] = (prep b, RsEof).
+Proof.
+  intros Hwf. pose proof (prep_wf b Hwf) as Hp. rewrite read_some_body. unfold rs_body.
+  destruct (Nat.ltb_spec cap (b_end (prep b))); [unfold wf in Hp; lia|]. cbn [length]. now rewrite Nat.min_0_r.
+Qed.
